@@ -511,6 +511,16 @@ func (env *specEnv) binary(x *ast.BinaryExpr) Val {
 			return c.Or(a, b)
 		}
 	}
+	if isFloat(xt) {
+		// floats in contracts: the same uninterpreted functions the code's float operations become, so a clause and the
+		// code agree exactly when they apply the same operations to equal operands
+		if m, ok := map[token.Token]string{token.ADD: "fadd", token.SUB: "fsub", token.MUL: "fmul", token.QUO: "fdiv"}[x.Op]; ok {
+			u.Trusted["floating-point operations are uninterpreted functions"] = true
+			_, rs, _ := scalarKind(env.typeOf(x))
+			n := c.DeclareUF(fmt.Sprintf("%s_%d", m, rs.W), []Sort{a.S, b.S}, rs)
+			return c.App(n, rs, a, b)
+		}
+	}
 	_, signed, ok := intWidth(xt)
 	if !ok {
 		panic("contract operator " + x.Op.String() + " on " + xt.String())
@@ -956,6 +966,8 @@ func (env *specEnv) callExpr(x *ast.CallExpr) Val {
 		case "sameHdr": // two slices with the same header (same backing array, offset and length)
 			a, b := env.eval(x.Args[0]).(*SliceV), env.eval(x.Args[1]).(*SliceV)
 			return c.And(c.Eq(a.Base, b.Base), c.Eq(a.Off, b.Off), c.Eq(a.Len, b.Len))
+		case "distinctObj": // two references (pointers or interface values) denote different objects
+			return c.Ne(identOf(env.eval(x.Args[0])), identOf(env.eval(x.Args[1])))
 		case "distinctBacking": // the two slices do not share a backing array
 			a, b := env.eval(x.Args[0]).(*SliceV), env.eval(x.Args[1]).(*SliceV)
 			return c.Or(c.Ne(a.Base, b.Base), c.Eq(a.Cap, c.BVu(0, 64)), c.Eq(b.Cap, c.BVu(0, 64)))
@@ -979,7 +991,7 @@ func (env *specEnv) callExpr(x *ast.CallExpr) Val {
 			return c.Sub(a.Off, b.Off)
 		case "allocated":
 			return c.True
-		case "iteInt":
+		case "iteInt", "iteInt64", "iteByte":
 			return c.Ite(env.evalBool(x.Args[0]), env.evalTerm(x.Args[1]), env.evalTerm(x.Args[2]))
 		case "iteStr":
 			return u.iteVal(env.evalBool(x.Args[0]), env.eval(x.Args[1]), env.eval(x.Args[2]))
@@ -1212,6 +1224,21 @@ func (env *specEnv) convert(arg ast.Expr, to types.Type) Val {
 	}
 	if types.Identical(from.Underlying(), to.Underlying()) {
 		return v
+	}
+	if fint && isFloat(to) {
+		nm := "i2f"
+		if !fsigned {
+			nm = "u2f"
+		}
+		u.Trusted["floating-point operations are uninterpreted functions"] = true
+		_, rs, _ := scalarKind(to)
+		n := c.DeclareUF(fmt.Sprintf("%s%d_%d", nm, fw, rs.W), []Sort{v.(*Term).S}, rs)
+		return c.App(n, rs, v.(*Term))
+	}
+	if isFloat(from) && tint {
+		u.Trusted["floating-point operations are uninterpreted functions"] = true
+		n := c.DeclareUF(fmt.Sprintf("f2i_%d_%d", v.(*Term).S.W, tw), []Sort{v.(*Term).S}, BV(tw))
+		return c.App(n, BV(tw), v.(*Term))
 	}
 	panic("conversion " + from.String() + " -> " + to.String() + " in contract")
 }
